@@ -145,7 +145,13 @@ fn docs(args: &[String]) {
                 }
             }
             let mut comp: Vec<Value> = vec![];
-            for gmembers in groups {
+            for mut gmembers in groups {
+                // the members of an object stream may stand in any order (a producer writes them as it meets them)
+                match rng.below(3) {
+                    0 => gmembers.reverse(),
+                    1 if gmembers.len() >= 3 => gmembers.rotate_left(1),
+                    _ => {}
+                }
                 if !gmembers.is_empty() {
                     next += 1;
                     comp.push(json!({"cnum": next, "members": gmembers}));
